@@ -416,7 +416,7 @@ func runLockstep(prefix string, pc ref.PConfig, alpha []ref.Cmd, hist []int) *hi
 			}
 		}
 		if !expected {
-			res.Finding = h.F(prefix+"-recovered-panic", "history [%s]: the server recovered from a panic although the backend never panicked: %.600s", histNames(alpha, hist), live.Log.String())
+			res.Finding = h.F(prefix+"-recovered-panic", "history [%s]: the server recovered from a panic although the backend never panicked: %s", histNames(alpha, hist), firstLogLine(live.Log.String()))
 			res.FailedAt = len(hist) - 1
 		}
 	}
